@@ -79,6 +79,8 @@ def c01_families(run):
                bases=["file:///C:/d/e", "file://fh/x/y?q#f"] + ([] if q else ["file:///D|/a", "file:///", "file:///a/b?q"]), invariants=inv),
         Family("ipv4deep", "01.", 8 if q else 10, prefixes=["http://"], invariants=inv),
         Family("ipv6deep", "1:.", 7 if q else 9, prefixes=["http://["], suffixes=["]"], invariants=inv),
+        # two zero runs (ties between runs, a run at the end): the compression choice of the serializer
+        Family("ipv6ties", "01:", 5 if q else 6, frames=[("http://[1:0:0:", ":0:0]/"), ("x://[0:0:", ":0:0:0]"), ("http://[1:", "::]")], invariants=inv),
         Family("brackets", "[]:1", 6 if q else 7, prefixes=["http://", "x://"], suffixes=["/"], invariants=inv),
         Family("dotdeep", "./" + L, 7 if q else 9, prefixes=["http://h/a/b/", "x:/a/"], bases=[] , invariants=inv),
         Family("creds", L + "@:", 6 if q else 8, prefixes=["http://", "x://"], suffixes=["h/"], invariants=inv),
@@ -168,7 +170,7 @@ def setter_families(run, with_rt=False, inv=("AllWellFormed", "AllGettersOk")):
 def check_c05(run):
     run.build_harness()
     run.selftest()
-    run_api_families(run, setter_families(run), keys="std", spmodes="late")
+    run_api_families(run, setter_families(run), keys="std", spmodes="late,early", params=False)
     run_traces(run, salt=5, parse_only=10)
     run.assumptions.append("histories over the value alphabets of DESIGN.md 4/C05 (chosen to hit every guard and early return of each setter); arbitrary string values only through recorded random traces")
     return run.finish("model_checking", "all setter histories up to the tree depth over the value alphabets x 17 start URLs, plus the closure of the URL "
@@ -228,7 +230,7 @@ def check_c03(run):
         S, M, st = run.tlc_replay(mod, fam.name, cfg=mod + ".cfg", replay_args=["--keys", "std", "--reparse", "--entries", "Parse,UrlParse"])
         absorb(run, M, S, fam.name)
     # after setters: the expected state carries the expected re-parse (the standard's own exceptions are computed, not hard-coded)
-    run_api_families(run, setter_families(run, with_rt=True), keys="std", spmodes="late")
+    run_api_families(run, setter_families(run, with_rt=True), keys="std", spmodes="late,early", params=False)
     run_traces(run, salt=3, pinned=["http://a\u2260b/"])
     run.assumptions.append("the standard's own non-round-tripping states (file + non-normalized drive letter, file://localhost via protocol setter) are computed by the specification per state; the code must then behave exactly as the standard does")
     return run.finish("model_checking", "every terminal state of the parse families is re-parsed on the real code (identity demanded; TLC checks the same "
@@ -365,10 +367,10 @@ def check_c13(run):
     # one seed-chosen value per setter, plus the values that write a shared structure IN PLACE (clearing query / fragment strips
     # the trailing spaces of an opaque path; an empty pathname / host rewrites the path / host)
     setters = sub_ops(run.seed, "c13", 1)
-    for extra in [("hash", ""), ("search", ""), ("pathname", "/n"), ("host", "h9")]:
+    for extra in [("hash", ""), ("search", ""), ("search", "x=1"), ("pathname", "/n"), ("host", "h9")]:
         if extra not in setters:
             setters.append(extra)
-    starts = ["http://u:p@h:8/a/b?q=1#f", "x://h/a?b=2", "file:///C:/d?x", "m:o?a=1", "m:o  #f", "m:o  ?q#f"]
+    starts = ["http://u:p@h:8/a/b?q=1#f", "x://h/a?b=2", "file:///C:/d?x", "m:o?a=1", "m:o  #f", "m:o  ?q#f", "http://h/p?#", "x://@h?"]   # incl. empty-but-present components
     fams = [
         ApiFamily("indep_d3", starts, setter_ops=setters, sp_ops=sp_ops(names, values, with_sort=False) + [("sort", "", ""), ("iterappend", "", "z"), ("iterfirst", "", "w")], refs=["x", "?n=1", "#g", "//o/p?r"],
                   depth=3 if q else 4, nh=3, clone=True, properties=("Independence",)),
@@ -855,7 +857,7 @@ def check_c16(run):
     run.selftest()
     for fam in opt_families(run):
         mod = fam.write(run.scratch)
-        bad, n = run.tlc_events(mod, fam.name, "opt", cfg=mod + ".cfg", chunks=14)
+        bad, n = run.tlc_events(mod, fam.name, "opt", cfg=mod + ".cfg", chunks=14, events_args=["--setter-events"] if fam.name in ("optmix", "optpath", "optraw") else [])
         run.samples.append("[%s/opt] %d composite events (input x option configuration) recorded from the real code" % (fam.name, n))
         absorb_events(run, bad, fam.name)
         run.distinct += n
